@@ -1,6 +1,8 @@
 package parser
 
 import (
+	"math"
+
 	"github.com/goghcrow/yae/parser/ast"
 	"github.com/goghcrow/yae/parser/oper"
 	"github.com/goghcrow/yae/parser/pos"
@@ -73,9 +75,14 @@ func binaryL(p *parser, bp oper.BP, lhs ast.Expr, t *token.Token) ast.Expr {
 
 func binaryR(p *parser, bp oper.BP, lhs ast.Expr, t *token.Token) ast.Expr {
 	name := ast.Var(t.Lexeme, t.Pos)
-	rhs := p.expr(bp - 1)
+	rhs := p.expr(justBelow(bp))
 	rg := pos.Range(lhs, rhs)
 	return ast.Binary(name, oper.INFIX_R, lhs, rhs, rg)
+}
+
+// justBelow the largest binding power strictly less than bp
+func justBelow(bp oper.BP) oper.BP {
+	return oper.BP(math.Nextafter32(float32(bp), float32(math.Inf(-1))))
 }
 
 func binaryN(p *parser, bp oper.BP, lhs ast.Expr, t *token.Token) ast.Expr {
@@ -177,7 +184,7 @@ func parseQuestion(p *parser, bp oper.BP, l ast.Expr, t *token.Token) ast.Expr {
 	name := ast.Var(t.Lexeme, t.Pos)
 	m := p.expr(0)
 	p.mustEat(token.COLON)
-	r := p.expr(bp - 1)
+	r := p.expr(justBelow(bp))
 	rg := pos.Range(l, r)
 	return ast.Tenary(name, l, m, r, rg)
 }
